@@ -1,11 +1,14 @@
 package c20
 
 import (
+	"bytes"
 	"math/rand"
 	"runtime"
 	"sync"
 
 	"verifh/engine"
+
+	"github.com/pinealctx/neptune/tex"
 )
 
 // rtRetainedCase: the bytes an encoder returned must still decode to the original value after
@@ -42,6 +45,58 @@ func rtRetainedCase(k *engine.Case) {
 		}
 		obs, err := h.v.decode(direct, h.tok)
 		rtCheck(k, h.t.name, "direct-retained", h.v.show, h.v.want, h.tok, obs, err)
+	}
+	// decoded values are values too: one receiver variable is decoded into again and again (a
+	// row variable in a loop) and the caller keeps what it got each time; a later decode into the
+	// same variable must not change the earlier results
+	{
+		var jb tex.JsByte
+		var bb tex.Base64Bytes
+		type kept struct {
+			what string
+			got  []byte
+			want []byte
+		}
+		var ks []kept
+		for i, m := 0, 3+r.Intn(6); i < m; i++ {
+			n := r.Intn(12)
+			if len(ks) > 0 && r.Intn(2) == 0 {
+				n = r.Intn(len(ks[len(ks)-1].want) + 1) // same length or shorter than the one before
+			}
+			v := make([]byte, n)
+			r.Read(v)
+			if r.Intn(2) == 0 {
+				tok, err := tex.JsByte(v).MarshalJSON()
+				if err != nil || jb.UnmarshalJSON(tok) != nil {
+					continue
+				}
+				ks = append(ks, kept{"JsByte.UnmarshalJSON", jb, append([]byte(nil), v...)})
+			} else {
+				dv, err := tex.Base64Bytes(v).Value()
+				if err != nil {
+					continue
+				}
+				src := dv.(string)
+				var serr error
+				if r.Intn(2) == 0 {
+					serr = bb.Scan(src)
+				} else {
+					serr = bb.Scan([]byte(src))
+				}
+				if serr != nil {
+					continue
+				}
+				ks = append(ks, kept{"Base64Bytes.Scan", bb, append([]byte(nil), v...)})
+			}
+		}
+		for i, x := range ks {
+			k.Evals(1)
+			k.Count("retained_decoded_values", 1)
+			if !bytes.Equal(x.got, x.want) {
+				fail(k, "decoded-value-changed:"+x.what, "%s: value #%d decoded into a reused receiver was %v; after %d later decodes into the same variable the kept value reads %v", x.what, i, x.want, len(ks)-1-i, x.got)
+				break
+			}
+		}
 	}
 	// concurrent encoders: every goroutine keeps its token across yields, then decodes it
 	workers := 2 + r.Intn(3)
